@@ -237,6 +237,7 @@ def residual(ev, pars, lam, mu, exps, I0=None, power=3):
 
 def run_case(case, ctx):
     r = R()
+    _SEARCH_DIR[0] = ctx.scratch
     m = build.model(case["model"])
     info = m.info
     dim = case["dim"]
@@ -438,8 +439,41 @@ def _search_sets(info, free):
     return psets
 
 
+_SEARCH_DIR = [None]
+
+
 @functools.lru_cache(maxsize=None)
 def exponent_search(model_name):
+    """per-process memo + per-run file memo (the search of an expensive model is done by one worker only)"""
+    import json
+    import os
+    import time
+    d = _SEARCH_DIR[0]
+    if d is None:
+        return _exponent_search(model_name)
+    path = os.path.join(d, "c13-search-%s.json" % model_name)
+    lock = path + ".lock"
+    try:
+        os.close(os.open(lock, os.O_CREAT | os.O_EXCL | os.O_WRONLY))
+        mine = True
+    except FileExistsError:
+        mine = False
+    if not mine:
+        t0 = time.time()
+        while time.time() - t0 < 300:
+            if os.path.exists(path):
+                with open(path) as fh:
+                    return json.load(fh)
+            time.sleep(0.05)
+        return _exponent_search(model_name)       # the owner died: compute it here (same deterministic result)
+    out = _exponent_search(model_name)
+    with open(path + ".tmp", "w") as fh:
+        json.dump(out, fh)
+    os.replace(path + ".tmp", path)
+    return out
+
+
+def _exponent_search(model_name):
     """
     Enumerate unit-exponent assignments for the non-SLD, non-angle, non-control rows and keep those under which
     (I-bg) scales as lambda^k with one integer k in 0..6 at several parameter sets and lambda = 1.3, 0.5.
@@ -468,21 +502,26 @@ def exponent_search(model_name):
                     a.update(zip(subset, combo))
                     space.append(a)
         bound = "all assignments <=2 of %d rows away from the declaration" % len(free)
+    from sasmodels.direct_model import call_kernel
     I0s = [ev.I(p) for p in psets]
     bg = psets[0]["background"]
+    # first stage on a single q point (cheap): the implied power must be an integer
+    qs = Q1[1]
+    ka, kb = m.make_kernel([np.array([qs])]), m.make_kernel([np.array([qs / 1.3])])
+    with np.errstate(all="ignore"):
+        d0 = float(call_kernel(ka, dict(psets[0]))[0]) - bg
     survivors = []
     for cand in space:
         exps = dict(decl)
         exps.update(cand)
         # implied power at the first parameter set, lambda = 1.3
         try:
-            I1 = ev.I(rescale(info, psets[0], 1.3, 1.0, exps), 1.3)
+            with np.errstate(all="ignore"):
+                d1 = float(call_kernel(kb, rescale(info, psets[0], 1.3, 1.0, exps))[0]) - bg
         except Exception:  # noqa
             continue
-        d0, d1 = I0s[0] - bg, I1 - bg
-        j = int(np.argmax(np.abs(d0)))
         with np.errstate(all="ignore"):
-            ratio = d1[j] / d0[j]
+            ratio = d1 / d0 if d0 != 0 else float("nan")
         if not (np.isfinite(ratio) and ratio > 0):
             continue
         pw = math.log(ratio) / math.log(1.3)
